@@ -50,10 +50,12 @@ type KStep struct {
 // KillCase is a C10 case.
 type KillCase struct {
 	// ProjDir names the directory holding the spokfile ("" = proj)
-	ProjDir string            `json:"proj_dir,omitempty"`
-	Tasks   []KTask           `json:"tasks"`
-	Init    map[string]string `json:"init"`
-	Steps   []KStep           `json:"steps"`
+	ProjDir string `json:"proj_dir,omitempty"`
+	// Invoke: how spok is pointed at the project (sandbox.Box.Invoke)
+	Invoke string            `json:"invoke,omitempty"`
+	Tasks  []KTask           `json:"tasks"`
+	Init   map[string]string `json:"init"`
+	Steps  []KStep           `json:"steps"`
 }
 
 var (
@@ -87,6 +89,7 @@ func (c KillCase) source() string {
 func genKill(t *rapid.T) KillCase {
 	c := genKillBody(t)
 	c.ProjDir = genProjDir(t)
+	c.Invoke = genInvoke(t)
 	return c
 }
 
@@ -228,7 +231,7 @@ var lastRunKilled bool
 var killedAtStep bool
 
 func execKill(s *ev.Shard, b *sandbox.Box, c KillCase) *rp.Fail {
-	if err := b.ResetAs(c.ProjDir); err != nil {
+	if err := b.ResetFor(c.ProjDir, c.Invoke); err != nil {
 		return &rp.Fail{Sig: "harness", Msg: err.Error()}
 	}
 	src := c.source()
